@@ -28,3 +28,11 @@ package main
 //@   ensures[finish-after-sync] hNoUnsafeAck(fl.opts.GZIP)
 //@   ensures[finished-were-written] r3dAckUnwritten == old(r3dAckUnwritten)
 //@   ensures[finished-had-auto-response-off] r3dAckAutoOn == old(r3dAckAutoOn)
+
+// main$1 (the logf every component of nsq_to_file is given): one Logf call on the process logger at the configured level.
+//@ func main$1(lvl lg.LogLevel, f string, args ...interface{})
+//@   props C19
+//@   nochan
+//@   requires logger != nil
+//@   ensures[filtered-below-the-configured-level] logLevel > lvl ==> r5JLogOutputs == old(r5JLogOutputs)
+//@   ensures[one-line-otherwise] logLevel <= lvl ==> r5JLogOutputs == old(r5JLogOutputs) + 1
